@@ -19,6 +19,10 @@ RULES = {
     "C22.5": "an append that passed the lease test cannot be overtaken by the sealing of its segment (= C23.1): the lease test and the engine append are one critical section with "
              "respect to lease updates. Otherwise a producer that has passed the test and waits for the per-key mutex writes into the segment after another producer's append "
              "sealed it with the count captured before; the entry is acknowledged and no GET returns it",
+    "C22.6": "a sealing names the segment it seals: the count a node proposes (C22.2) is a snapshot of its in-memory counter taken outside the segment's write critical section, "
+             "so two overlapping producers - or the monitor racing maybe_rollover - both propose a rollover for the same segment. MetadataCmd::RolloverTopic must therefore carry "
+             "the id of the segment it seals and Metadata::apply must reject a command whose segment is not the current one; without it the second proposal seals the NEW segment "
+             "with the old segment's count while the first sealed the old one short: an acknowledged entry lies beyond the sealed count and no GET returns it",
     "C22.4": "no acknowledged append into a segment this node knows to be sealed (= C23.2's path clause): every path of forward_append that reaches the append has executed "
              "self.update_leases().await before it. Readers leave a sealed segment after sealed_count entries, so an entry acknowledged into it afterwards is never returned by a GET",
 }
@@ -292,6 +296,38 @@ def run(ctx):
     check_lease_refresh(ctx, files, "C22.4")
     from .c23 import check_lease_critical_section
     check_lease_critical_section(ctx, files, "C22.5")
+    # ---- C22.6 -----------------------------------------------------------------------
+    META = "distributed-walrus/src/metadata.rs"
+    mf = A.load(ctx, [META])[META]
+    try:
+        en = mf.item("enum", "MetadataCmd")
+        ap = mf.fn("apply")
+    except A.AnchorMissingAst as e:
+        ctx.anchor_missing("C22.6", str(e))
+        en = None
+    if en is not None:
+        ctx.saw_fn("Metadata::apply", META, len(list(A.walk(ap["body"]))))
+        rv = [v for v in en["variants"] if v["name"] == "RolloverTopic"]
+        if not rv:
+            ctx.anchor_missing("C22.6", "MetadataCmd::RolloverTopic")
+        else:
+            fields = [f_ if isinstance(f_, str) else f_.get("name") for f_ in (rv[0].get("fields") or [])]
+            seg = [f_ for f_ in fields if f_ and re.search(r"seg", f_) and not re.search(r"count|entries|offset", f_)]
+            checked = False
+            if seg:
+                # apply compares it with the topic's current segment before sealing
+                for n in A.walk(ap["body"]):
+                    if isinstance(n, dict) and n.get("k") == "binary" and n.get("op") in ("==", "!="):
+                        t = A.text(n)
+                        if any(re.search(r"\b%s\b" % re.escape(s_), t) for s_ in seg) and "current_segment" in t:
+                            checked = True
+            if seg and checked:
+                ctx.ok("C22.6", "MetadataCmd::RolloverTopic", "the command names the segment it seals (%s) and apply compares it with current_segment" % ",".join(seg), META, rv[0].get("line"))
+            else:
+                ctx.violate("C22.6", "MetadataCmd::RolloverTopic", "rollover-does-not-name-the-segment", META, rv[0].get("line"),
+                            "RolloverTopic carries %s: %s. A second proposal for a segment that was already sealed (two overlapping producers, or the monitor racing maybe_rollover) seals "
+                            "the segment that is current when it is applied, with a count that belongs to the older one"
+                            % (fields, "no segment id" if not seg else "a segment id that apply does not compare with current_segment"))
     ctx.assume("NOT decided (explicitly): what happens when an append is acknowledged between the moment a count is captured and the moment the rollover carrying it is applied, or when two "
                "rollovers fire for one threshold - these are interleavings of a distributed protocol in a crate that cannot be type-checked here")
     return {
